@@ -299,6 +299,8 @@ func goType(t *T) reflect.Type {
 		return reflect.TypeOf(float64(0))
 	case "string":
 		return reflect.TypeOf("")
+	case "any":
+		return reflect.TypeOf((*any)(nil)).Elem()
 	}
 	panic("gotype " + t.K)
 }
@@ -553,6 +555,10 @@ func genCase(rt *rapid.T) *Case {
 			}
 			ev.R().Class("excluded_by_known_finding:c14-deep-nesting-elided")
 			g.defs = g.defs[:save]
+		}
+		if !g.hostOnly && rx.Chance(rt, "anyslice", 1, 12) {
+			// a slice of any without elements, nil or empty: both print as []
+			v = &V{K: "slice", Elem: &T{K: "any"}, Nil: rapid.Bool().Draw(rt, "anynil")}
 		}
 		if v.K == "map" && !v.Nil && rapid.Bool().Draw(rt, "maphistory") {
 			// the map has a past: other keys were inserted and deleted again
